@@ -252,7 +252,7 @@ class Kernel:
     """params: term ('now' | 'late' | 'never'), abrt ('die' | 'ignore'), settle (ticks after the script)."""
 
     def __init__(self, script=(), inject=None, term="now", abrt="die", settle=3, env=None, ppid=1,
-                 master_pid=MASTER_PID, fs=None, hb_gap=0.0, on_quiescent=None, late_delay=0.25, max_points=20000,
+                 master_pid=MASTER_PID, fs=None, hb_gap=0.0, on_quiescent=None, late_delay=0.25, max_points=4000,
                  other_children=0, pid_order="ascending"):
         self.script = list(script)
         self.script_pos = 0
